@@ -14,6 +14,8 @@ package main
 import (
 	"encoding/json"
 	"fmt"
+	"os"
+	"path/filepath"
 	"sort"
 	"strings"
 	"time"
@@ -34,9 +36,9 @@ func init() {
 }
 
 type c20Args struct {
-	SeqLen   int `json:"seq_len"`   // part A: sequences of at most this many elements
-	Runs     int `json:"runs"`      // part B: paragraphs of at most this many token runs
-	MetaCtx  int `json:"meta_ctx"`  // part C: 1 = single meta element in 3 contexts, 2 = also pairs of meta elements
+	SeqLen  int `json:"seq_len"`  // part A: sequences of at most this many elements
+	Runs    int `json:"runs"`     // part B: paragraphs of at most this many token runs
+	MetaCtx int `json:"meta_ctx"` // part C: 1 = single meta element in 3 contexts, 2 = also pairs of meta elements
 }
 
 // ---------------------------------------------------------------------------
@@ -808,6 +810,49 @@ func c20Export(doc *document.Document, o c20Opts) (md string, fail string) {
 	return md, ""
 }
 
+func c20FileEntries(doc *document.Document, add func(sig, clause, what string, exp, got interface{})) {
+	dir, err := os.MkdirTemp("", "vcheck-c20-")
+	if err != nil {
+		return
+	}
+	defer os.RemoveAll(dir)
+	docx := filepath.Join(dir, "in.docx")
+	if doc.Save(docx) != nil {
+		return
+	}
+	opened, err := document.Open(docx)
+	if err != nil {
+		return
+	}
+	var ref string
+	if p := guard(func() { ref, err = markdown.NewExporter(nil).ExportToString(opened, nil) }); p != "" || err != nil {
+		return // judged by the main clauses
+	}
+	var e1, e2 error
+	mdPath := filepath.Join(dir, "out.md")
+	if p := guard(func() { e1 = markdown.NewExporter(nil).ExportToFile(docx, mdPath, nil) }); p != "" {
+		add("panic|export|ExportToFile|"+panicClass(p), "totality", "ExportToFile panics: "+p, nil, nil)
+		return
+	}
+	got, rerr := os.ReadFile(mdPath)
+	if e1 != nil || rerr != nil {
+		add("error|export|ExportToFile", "totality", fmt.Sprintf("ExportToFile of a document that ExportToString exports fails: %v %v", e1, rerr), nil, nil)
+	} else if string(got) != ref {
+		add("unstable|entry-point|ExportToFile", "fixpoint", "ExportToFile writes other Markdown than ExportToString gives for the same file opened", ref, string(got))
+	}
+	outDir := filepath.Join(dir, "batch")
+	if p := guard(func() { e2 = markdown.NewExporter(nil).BatchExport([]string{docx}, outDir, nil) }); p != "" {
+		add("panic|export|BatchExport|"+panicClass(p), "totality", "BatchExport panics: "+p, nil, nil)
+		return
+	}
+	got, rerr = os.ReadFile(filepath.Join(outDir, "in.md"))
+	if e2 != nil || rerr != nil {
+		add("error|export|BatchExport", "totality", fmt.Sprintf("BatchExport of a document that ExportToString exports fails: %v %v", e2, rerr), nil, nil)
+	} else if string(got) != ref {
+		add("unstable|entry-point|BatchExport", "fixpoint", "BatchExport writes other Markdown than ExportToString gives for the same file opened", ref, string(got))
+	}
+}
+
 func c20RunCase(els []c20Elem, o c20Opts) c20Result {
 	var res c20Result
 	add := func(sig, clause, what string, exp, got interface{}) {
@@ -988,6 +1033,13 @@ func c20RunCase(els []c20Elem, o c20Opts) c20Result {
 				}
 			}
 		}
+	}
+
+	// (1b) the file-based entry points (ExportToFile, BatchExport) on the saved document must give what the
+	// in-memory entry point gives for the very same file opened again: same document, same options, other door.
+	// Run for the library default options on documents of at most two elements.
+	if o.nonDefault() == 0 && len(els) <= 2 {
+		c20FileEntries(doc, add)
 	}
 
 	// (4) convert back
